@@ -61,6 +61,11 @@ func genHist(g *hx.Gen, forceTwoStep bool, a, b int) {
 	pos := uint64(0)  // predicted stream position (steers the choices only)
 	dead := false     // predicted: a panic has happened and the history ends there
 	hadPanic := false // predicted: a panic has happened (a cont=1 history goes on)
+	// the same history on a port with a 256-byte buffer (the `ports` overlay variant): position and end of the
+	// buffered keystream. All observables are independent of the buffer size except the position after a
+	// recovered overflow panic (the whole buffer has been drained); a cont=1 history stops where they part.
+	pos4, bufEnd4 := uint64(0), uint64(0)
+	stop := false
 	setc := func(c uint64) {
 		ops = append(ops, "s:"+strconv.FormatUint(c, 10))
 		cur := (pos + 63) / 64
@@ -90,6 +95,28 @@ func genHist(g *hx.Gen, forceTwoStep bool, a, b int) {
 			return
 		}
 		pos = c * 64
+		if c*64 < bufEnd4 {
+			pos4 = c * 64 // inside the buffered blocks
+		} else {
+			pos4, bufEnd4 = c*64, c*64
+		}
+	}
+	xor4 := func(n uint64) { // a successful XORKeyStream of n > 0 bytes with a 256-byte buffer
+		if n <= bufEnd4-pos4 {
+			pos4 += n
+			return
+		}
+		rest := n - (bufEnd4 - pos4)
+		start := bufEnd4 + rest/256*256
+		pos4 = bufEnd4 + rest
+		bufEnd4 = start
+		if t := rest % 256; t > 0 {
+			if start/64+4 >= 1<<32 {
+				bufEnd4 = start + (t+63)/64*64
+			} else {
+				bufEnd4 = start + 256
+			}
+		}
 	}
 	xor := func(n int) {
 		if cont && hadPanic {
@@ -174,6 +201,11 @@ func genHist(g *hx.Gen, forceTwoStep bool, a, b int) {
 				if pos <= limit {
 					pos += (64 - pos%64) % 64
 				}
+				pos4 = bufEnd4
+				if pos4 != pos {
+					stop = true // from here on the two buffer sizes behave differently: end of the history
+					g.Stat("cont-stopped(bufsize-dependent-after-overflow-panic)")
+				}
 			} else {
 				dead = true
 			}
@@ -184,6 +216,10 @@ func genHist(g *hx.Gen, forceTwoStep bool, a, b int) {
 			feat["inside-block"] = true
 		}
 		pos += uint64(n)
+		xor4(uint64(n))
+		if pos4 != pos {
+			panic("generator: buffer-size simulation diverged without a panic")
+		}
 		if pos == limit && !dead {
 			g.Stat("reached-exact-end")
 			feat["exact-end"] = true
@@ -213,7 +249,7 @@ func genHist(g *hx.Gen, forceTwoStep bool, a, b int) {
 	} else {
 		nsteps := r.Range(1, 20)
 		budget := 8000
-		for i := 0; i < nsteps; i++ {
+		for i := 0; i < nsteps && !stop; i++ {
 			if rem := limit - pos; pos <= limit && rem < 6000 && !dead && r.Chance(6, 10) {
 				// close to the end of the keystream: small steps so that histories get there without panicking early
 				xor(r.Intn(int(rem)/3 + 2))
